@@ -281,6 +281,23 @@ def generate_cache_facts(outdir):
             raise rx.Unsupported("unbounded cache decorator: not modelled")
     if cached and cap is None:
         raise rx.Unsupported("lru_cache without an integer maxsize")
+    # the function itself must be a pure function of (self.privilege_levels, current_prompt): any other state it reads or
+    # writes (a hand-made memo on self / on the class / in the module) is a cache the model does not have -> fail closed
+    body = ast.Module(body=det.body, type_ignores=[])      # the statements only: not the decorators, not the annotations
+    self_attrs = {n.attr for n in ast.walk(body) if isinstance(n, ast.Attribute) and isinstance(n.value, ast.Name) and n.value.id == "self"}
+    if not self_attrs <= {"privilege_levels", "logger"}:
+        raise rx.Unsupported("_determine_current_priv touches self.%s: state outside the modelled lru_cache" % sorted(self_attrs - {"privilege_levels", "logger"}))
+    if any(isinstance(n, (ast.Global, ast.Nonlocal)) for n in ast.walk(body)):
+        raise rx.Unsupported("_determine_current_priv declares global / nonlocal names")
+    bound = {a.arg for a in det.args.args} | {n.id for n in ast.walk(body) if isinstance(n, ast.Name) and isinstance(n.ctx, ast.Store)}
+    free = {n.id for n in ast.walk(body) if isinstance(n, ast.Name) and isinstance(n.ctx, ast.Load)} - bound
+    if not free <= {"re", "any", "ScrapliPrivilegeError"}:
+        raise rx.Unsupported("_determine_current_priv reads the outer names %s: not modelled" % sorted(free - {"re", "any", "ScrapliPrivilegeError"}))
+    # functools.lru_cache on a METHOD is one cache for the class; its key contains the object iff the decorated function is
+    # called with it, i.e. the plain method (first parameter self, no staticmethod / classmethod wrapper)
+    first = det.args.args[0].arg if det.args.args else ""
+    wrappers = {getattr(d, "id", getattr(d, "attr", "")) for d in det.decorator_list if not isinstance(d, ast.Call)}
+    keyed = (not cached) or (first == "self" and not wrappers & {"staticmethod", "classmethod"})
     # update_privilege_levels: the LAST statement-level effects must include cache_clear() after the pattern was regenerated
     calls = [ast.unparse(n.value.func) for n in upd.body if isinstance(n, ast.Expr) and isinstance(n.value, ast.Call)]
     clears = (not cached) or ("self._determine_current_priv.cache_clear" in calls)
@@ -308,8 +325,9 @@ def generate_cache_facts(outdir):
             "Definition gen_cached : bool := %s.\nDefinition gen_cap : nat := %d%%nat.\n"
             "Definition gen_update_clears_cache : bool := %s.\nDefinition gen_update_regenerates_pattern : bool := %s.\n"
             "Definition gen_update_pushes_pattern_to_channel : bool := %s.\nDefinition gen_register_then_update : bool := %s.\n"
-            % tuple(["true" if cached else "false", cap or 0] + ["true" if x else "false" for x in (clears, regen, pushes, reg_ok)]))
+            "Definition gen_keyed_by_self : bool := %s.\n"
+            % tuple(["true" if cached else "false", cap or 0] + ["true" if x else "false" for x in (clears, regen, pushes, reg_ok, keyed)]))
     path = os.path.join(outdir, "Gen_PromptCache.v")
     if not os.path.exists(path) or open(path).read() != text:
         open(path, "w").write(text)
-    return path, {"cached": cached, "cap": cap, "clears": clears, "regenerates": regen, "pushes": pushes, "register": regs}
+    return path, {"cached": cached, "cap": cap, "keyed_by_self": keyed, "clears": clears, "regenerates": regen, "pushes": pushes, "register": regs}
